@@ -53,3 +53,138 @@ scn.__dict__["caught_then_outer_fails"] = caught_then_outer_fails
 
 def register(glob, which, names, split=None):
     scn.register(glob, which, names, split)
+
+
+def three_levels(which, fails: bool, c0: int, c1: int, c2: int, c3: int, c4: int, c5: int, c6: int, c7: int, c8: int, c9: int, c10: int, c11: int):
+    """Three levels of nesting: L1 = Parallel[ L2 = Parallel[ L3 = Parallel[ A -> B -> C ] ] | X1 -> X2 -> X3 ] where X3
+    is a Fail state (fails) or a Pass.  When X3 fails the execution, the events of the innermost branch are three
+    levels below the terminated state: they must be dropped all the same."""
+    fails = cbool(fails)
+    L3 = {"Type": "Parallel", "End": True, "Branches": [{"StartAt": "A", "States": {
+        "A": {"Type": "Pass", "Next": "B"}, "B": {"Type": "Pass", "Next": "C"}, "C": {"Type": "Pass", "Result": "c", "End": True}}}]}
+    L2 = {"Type": "Parallel", "End": True, "Branches": [{"StartAt": "L3", "States": {"L3": L3}}]}
+    X3 = {"Type": "Fail", "Error": "Boom", "Cause": "x"} if fails else {"Type": "Pass", "Result": "x", "End": True}
+    asl = {"StartAt": "L1", "States": {"L1": {"Type": "Parallel", "Next": "After", "Branches": [
+        {"StartAt": "L2", "States": {"L2": L2}},
+        {"StartAt": "X1", "States": {"X1": {"Type": "Pass", "Next": "X2"}, "X2": {"Type": "Pass", "Next": "X3"}, "X3": X3}}]},
+        "After": {"Type": "Pass", "End": True}}}
+    expect = ("FAILED", "Boom") if fails else ("SUCCEEDED", [[["c"]], "x"])
+    return _run(asl, {"x": 1}, [c0, c1, c2, c3, c4, c5, c6, c7, c8, c9, c10, c11], {}, which, "STANDARD", expect,
+                extra_check=_fanout_checks(2, ("A", "B", "C", "L2", "L3", "X1", "X2", "X3"), "After", "ParallelStateFailed"), max_steps=300)
+
+
+SCN["three_levels"] = ([], 600, 1800, ("quick", "thorough"))
+scn.__dict__["three_levels"] = three_levels
+
+
+def backstop_after_end(which, caught: bool, c0: int, c1: int, c2: int, c3: int, c4: int, c5: int, c6: int, c7: int):
+    """TimeoutSeconds 30.  P = Parallel[ A: Task fa (fails) | B: Task fb with Retry(IntervalSeconds 120) that failed
+    once and is sitting out its retry delay ] with (caught) or without a Catch on P.  The execution ends at t ~ 0
+    (SUCCEEDED through the Catcher, or FAILED); B's retry timer cannot be cancelled, so the engine still holds join
+    state when the 60 s heartbeat runs the time-out back-stop at t = 60 > TimeoutSeconds: the ended execution must
+    not be ended again."""
+    caught = cbool(caught)
+    P = {"Type": "Parallel", "Next": "Z", "Branches": [
+        {"StartAt": "A", "States": {"A": task("fa", End=True)}},
+        {"StartAt": "B", "States": {"B": task("fb", End=True, Retry=[{"ErrorEquals": ["Flaky"], "IntervalSeconds": 120, "MaxAttempts": 2, "BackoffRate": 1.0}])}}]}
+    if caught:
+        P["Catch"] = [{"ErrorEquals": ["States.ALL"], "ResultPath": "$.err", "Next": "H"}]
+    asl = {"StartAt": "P", "TimeoutSeconds": 30, "States": {"P": P, "Z": {"Type": "Pass", "End": True},
+                                                           "H": {"Type": "Pass", "Parameters": {"handled.$": "$.err.Error"}, "End": True}}}
+    n = [0]
+
+    def wb(req):
+        n[0] += 1
+        return {"errorType": "Flaky", "errorMessage": "first"} if n[0] == 1 else {"ok": "fb"}
+
+    def pre(run, inst):
+        # the engine's own periodic back-stop, as EventDispatcher.heartbeat would call it on its 60th beat
+        inst.conn.set_timeout(lambda: inst.eng.heartbeat(60), 60000)
+    expect = ("SUCCEEDED", {"handled": "Boom"}) if caught else ("FAILED", "Boom")
+    return _run(asl, {"x": 1}, [c0, c1, c2, c3, c4, c5, c6, c7], {"fa": worker(True, "Boom", "fa"), "fb": wb}, which, "STANDARD", expect,
+                pre_run=pre, max_steps=200)
+
+
+SCN["backstop_after_end"] = ([], 300, 900, ("quick", "thorough"))
+scn.__dict__["backstop_after_end"] = backstop_after_end
+
+
+def inner_join_failure(which, kind: int, how: int, c0: int, c1: int, c2: int, c3: int, c4: int, c5: int, c6: int, c7: int):
+    """P = Parallel[ b0: Task t0 | b1: Task w -> Q ], where Q is a nested Parallel (kind 0) / Map (kind 1) whose
+    branches all succeed but whose own JOIN fails - its ResultSelector raises States.IntrinsicFailure - and that
+    failure is caught (how 0) or retried once and then caught (how 1).  b0's result, already held in P's join,
+    must survive: P completes with both outputs."""
+    kind = cint(kind, 0, 1); how = cint(how, 0, 1)
+    Q = {"ResultSelector": {"v.$": "States.ArrayGetItem($, 5)"}, "Next": "QZ",
+         "Catch": [{"ErrorEquals": ["States.IntrinsicFailure"], "ResultPath": None, "Next": "H"}]}
+    if how == 1:
+        Q["Retry"] = [{"ErrorEquals": ["States.IntrinsicFailure"], "IntervalSeconds": 1, "MaxAttempts": 1, "BackoffRate": 1.0}]
+    if kind == 0:
+        Q.update({"Type": "Parallel", "Branches": [{"StartAt": "L", "States": {"L": {"Type": "Pass", "End": True}}}]})
+    else:
+        Q.update({"Type": "Map", "ItemsPath": "$.items", "Iterator": {"StartAt": "L", "States": {"L": {"Type": "Pass", "End": True}}}})
+    asl = {"StartAt": "P", "States": {"P": {"Type": "Parallel", "End": True, "Branches": [
+        {"StartAt": "T0", "States": {"T0": task("t0", End=True)}},
+        {"StartAt": "W", "States": {"W": task("w", ResultPath=None, Next="Q"), "Q": Q, "QZ": {"Type": "Pass", "End": True},
+                                    "H": {"Type": "Pass", "Result": "handled", "End": True}}}]}}}
+    data = {"x": 1, "items": [1]}
+    expect = ("SUCCEEDED", [{"ok": "t0", "in": data}, "handled"])
+    return _run(asl, data, [c0, c1, c2, c3, c4, c5, c6, c7], {"t0": worker(False, "", "t0"), "w": worker(False, "", "w")}, which, "STANDARD", expect, max_steps=200)
+
+
+SCN["inner_join_failure"] = (["0 <= kind < 2 and 0 <= how < 2"], 300, 900, ("quick", "thorough"))
+scn.__dict__["inner_join_failure"] = inner_join_failure
+
+
+def empty_map_in_branch(which, n: int, end: bool, c0: int, c1: int, c2: int, c3: int, c4: int, c5: int):
+    """Parallel[ M = Map over n (0 or 1) items, End:true or Next | Pass ]: the event of an EMPTY Map that ends its Branch
+    must be acknowledged like any other."""
+    n = cint(n, 0, 1); end = cbool(end)
+    M = {"Type": "Map", "ItemsPath": "$.items", "Iterator": {"StartAt": "I", "States": {"I": {"Type": "Pass", "End": True}}}}
+    states = {"M": M}
+    if end:
+        M["End"] = True
+    else:
+        M["Next"] = "MZ"; states["MZ"] = {"Type": "Pass", "End": True}
+    asl = {"StartAt": "P", "States": {"P": {"Type": "Parallel", "End": True, "Branches": [
+        {"StartAt": "M", "States": states}, {"StartAt": "B", "States": {"B": {"Type": "Pass", "Result": 2, "End": True}}}]}}}
+    items = [{"i": k} for k in range(n)]
+    expect = ("SUCCEEDED", [items, 2])
+    return _run(asl, {"items": items}, [c0, c1, c2, c3, c4, c5], {}, which, "STANDARD", expect, max_steps=100)
+
+
+SCN["empty_map_in_branch"] = (["0 <= n < 2"], 300, 900, ("quick", "thorough"))
+scn.__dict__["empty_map_in_branch"] = empty_map_in_branch
+
+
+def raw_start_events(which, first: int, c0: int, c1: int, c2: int, c3: int, c4: int, c5: int):
+    """Two start events put on the shared queue by an outside client, WITHOUT a message id (as the project's own example
+    clients publish them): first state a Wait (first 0) or a Task (first 1).  Each event is acknowledged for itself,
+    both executions end once."""
+    first = cint(first, 0, 1)
+    if first == 0:
+        asl = {"StartAt": "W", "States": {"W": {"Type": "Wait", "Seconds": 1, "Next": "Z"}, "Z": {"Type": "Pass", "End": True}}}
+    else:
+        asl = {"StartAt": "T", "States": {"T": task("f", ResultPath="$.t", Next="Z"), "Z": {"Type": "Pass", "End": True}}}
+
+    def pre(run, inst):
+        for k in (1, 2):
+            m = sim.Message(stubs.FastJson.dumps(sim.start_event({"x": k})))
+            m.message_id = None
+            sim.BROKER.publish("ev", m)
+    want = {"x": 1} if first == 0 else {"x": 1, "t": {"ok": "f", "in": {"x": 1}}}
+
+    def chk(run, inst, mon):
+        res = sorted(str(s2.result_of(a)) for a in mon.per_exec())
+        exp = []
+        for k in (1, 2):
+            exp.append(("SUCCEEDED", {"x": k} if first == 0 else {"x": k, "t": {"ok": "f", "in": {"x": k}}}))
+        if res != sorted(str(e) for e in exp):
+            return "outcomes %s, expected %s" % (res, exp)
+        return ""
+    return _run(asl, {"x": 0}, [c0, c1, c2, c3, c4, c5], {"f": worker(False, "", "f")}, which, "STANDARD", None, n_exec=0, pre_run=pre,
+                extra_check=chk, max_steps=100)
+
+
+SCN["raw_start_events"] = (["0 <= first < 2"], 300, 900, ("quick", "thorough"))
+scn.__dict__["raw_start_events"] = raw_start_events
